@@ -240,10 +240,9 @@ func (c *CBC) hmacCID(
 	msg.AddUint8(uint8(ip.RealType))
 	msg.AddBytes(make([]byte, ip.Zeros))
 
+	// msg already ends with the DTLSInnerPlaintext (content, real type, zeros):
+	// RFC 9146 Section 5.1 MACs it once.
 	if _, err := hmacHash.Write(msg.BytesOrPanic()); err != nil {
-		return nil, err
-	}
-	if _, err := hmacHash.Write(payload); err != nil {
 		return nil, err
 	}
 
